@@ -1,1 +1,2 @@
 pub mod statics;
+pub mod multi;
